@@ -54,7 +54,7 @@ def queue_spec(seed):
 
 
 def build_cases(tier, seed):
-    n = 96 if tier == "quick" else 900
+    n = 96 if tier == "quick" else 3000
     cases = []
     for i in range(n):
         s = seed * 100000 + 18000 + i
